@@ -155,6 +155,14 @@ def run(r):
         r.broken_obligation("search-harness", "c03 search failed", (out + err)[-2000:])
     s = summ[0] if summ else {}
     r.coverage["search"] = dict(s, violations=len(viols))
+    for tag in ("directed", "regress", "arith"):
+        for x in recs:
+            if x.get(tag) is True:
+                r.coverage["search_" + tag] = {k: v for k, v in x.items() if k != tag}
+    ar = r.coverage.get("search_arith", {})
+    cls = ar.get("chains_by_class_slope_gt1_eq1_0to1_m1to0_eqm1_ltm1_x_const_zero_nonzero", [])
+    if not ar or 0 in cls:
+        r.broken_obligation("search:arith-classes", "the arithmetic-chain family no longer reaches every slope/constant class of the algebra solver", json.dumps(ar))
     seen = set()
     for v in viols:
         key = finding_key(v) or "%s|%s|%s" % (v["violation"], v["src"], v["input"])
@@ -172,4 +180,7 @@ def run(r):
     r.coverage["rule"] = ("V: the depth-2 closure of the catalogue (blocks, dip/both/fill/rows of a block, every sequence and bracket of two blocks; "
                           "quick: a seeded subset, thorough: all) plus seeded terms of depth 3-4; search: all blocks, then terms of depth 2/3/4 in equal "
                           "parts, arguments of every element type (num, byte, char, complex, box) and rank 0-3, neighbours often sharing shape and type; "
-                          "inputs outside a block's domain (decided by running the term with per-block guards) are skipped and counted")
+                          "inputs outside a block's domain (decided by running the term with per-block guards) are skipped and counted; "
+                          "directed: un-join family (17 programs), regression programs of repaired anti defects, and every 2-step plus a seeded sample of "
+                          "3-step arithmetic chains over +c -c ×c ÷c (c of both signs) ¯ ¬ ˜-c reaching the algebra solver with every class of net slope "
+                          "(>1, 1, (0,1), (-1,0), -1, <-1) x net constant (zero, non-zero), on numeric scalars and arrays")
